@@ -85,6 +85,213 @@ def drive_get_generators(rng, n):
     return cases
 
 
+class _Budget(Exception):
+    pass
+
+
+def drive_schedule(rng, n):
+    """the real hephaestus.process_cp_transformations over a real ProgramProcessor whose only
+    transformation is a scripted fake (is_transformed per call); keep_all=True makes the saved
+    directories reveal which schedule entries produced a program"""
+    import argparse
+    import hephaestus as H
+    from src.modules.processor import ProgramProcessor
+    import src.utils as U
+    cases, hangs = [], []
+    saved = (ProgramProcessor.CP_TRANSFORMATIONS, H.save_program, U.translate_program, H.cli_args.keep_all)
+
+    class Tr:
+        def get_filename(self):
+            return "x.kt"
+    try:
+        for _ in range(n):
+            slen = rng.choice([0, 1, 1, 2, 3, 4, 6])
+            start = 0 if rng.random() < 0.8 else rng.randint(0, slen)
+            script = [rng.random() < rng.choice([0.1, 0.5, 0.9]) for _ in range(slen + 2)]
+            state = dict(calls=0, script=list(script), saved=[])
+
+            class Fake:
+                CORRECTNESS_PRESERVING = True
+
+                def __init__(self, program, language, logger=None, options=None):
+                    self.program = program
+                    self.is_transformed = False
+
+                @classmethod
+                def get_name(cls):
+                    return "TypeErasure"
+
+                def transform(self, st=state, lim=4 * slen + 10):
+                    st["calls"] += 1
+                    if st["calls"] > lim:
+                        raise _Budget()
+                    self.is_transformed = st["script"].pop(0) if st["script"] else False
+
+                def result(self):
+                    return self.program
+
+                def preserve_correctness(self):
+                    return True
+            ProgramProcessor.CP_TRANSFORMATIONS = {"TypeErasure": Fake}
+            args = argparse.Namespace(transformation_types=["TypeErasure"], transformations=slen, transformation_schedule=None,
+                                      log=False, debug=False, language="kotlin", options={"TypeErasure": {}}, name="v",
+                                      test_directory="/nonexistent", replay=None)
+            proc = ProgramProcessor(1, args)
+            proc.current_transformation = start
+
+            def save(program, text, path, st=state):
+                st["saved"].append(path)
+            H.save_program = save
+            U.translate_program = lambda tr, prog: "text"
+            H.cli_args.keep_all = True
+            try:
+                H.process_cp_transformations(1, "/nonexistent", Tr(), proc, object(), "pkg")
+            except _Budget:
+                hangs.append((start, slen, script))
+                continue
+            import re as _re
+            applied = []
+            for pth in state["saved"]:
+                m = _re.search(r"transformations[/\\]iter_\d+[/\\](\d+)", pth)
+                if m:
+                    applied.append(int(m.group(1)))
+            # get_transformations_dir(pid, current_transformation - 1): 0-based index of the entry -> 1-based number
+            applied = sorted(set(a + 1 for a in applied))
+            cases.append((start, slen, script, state["calls"], proc.current_transformation, applied))
+    finally:
+        ProgramProcessor.CP_TRANSFORMATIONS, H.save_program, U.translate_program, H.cli_args.keep_all = saved
+    return cases, hangs
+
+
+def erasure_program(lang, k, rng):
+    """fun test() { val v0: A<B> = A<B>(); ... }  -- every declared type and every explicit type-argument list is
+    omittable alone but not together, so all large combinations are infeasible"""
+    from src.ir import ast, types as tp, context as ctx
+    from src.ir import BUILTIN_FACTORIES
+    f = BUILTIN_FACTORIES[lang]
+    context = ctx.Context()
+    G = ast.GLOBAL_NAMESPACE
+    b = ast.ClassDeclaration("Bb", [], ast.ClassDeclaration.REGULAR)
+    a = ast.ClassDeclaration("Aa", [], ast.ClassDeclaration.REGULAR, type_parameters=[tp.TypeParameter("T")])
+    context.add_class(G, b.name, b)
+    context.add_class(G, a.name, a)
+    stmts = []
+    for i in range(k):
+        if rng.random() < 0.75:
+            t1, t2 = a.get_type().new([b.get_type()]), a.get_type().new([b.get_type()])
+        else:
+            t1, t2 = b.get_type(), b.get_type()
+        stmts.append(ast.VariableDeclaration("v%d" % i, ast.New(t2, []), var_type=t1))
+    func = ast.FunctionDeclaration("test", [], f.get_void_type(), ast.Block(stmts), ast.FunctionDeclaration.FUNCTION)
+    context.add_func(G, func.name, func)
+    for d in stmts:
+        context.add_var(G + (func.name,), d.name, d)
+    return ast.Program(context, lang)
+
+
+def drive_budget(rng, programs):
+    """TypeErasure.visit_func_decl with tda.is_combination_feasible wrapped from outside: per function the number
+    of feasibility checks of the search phase, the index of the applied combination, the budget"""
+    from src.transformations.type_erasure import TypeErasure
+    from src.analysis import type_dependency_analysis as tda
+    cases = []
+    log = []
+    orig_feasible = tda.is_combination_feasible
+    orig_visit = TypeErasure.visit_func_decl
+
+    def feasible(graph, combination):
+        r = orig_feasible(graph, combination)
+        log.append((id(graph), len(combination), bool(r)))
+        return r
+
+    def visit(self, node):
+        log.append(("begin", self.max_combinations))
+        try:
+            return orig_visit(self, node)
+        finally:
+            log.append(("end",))
+    tda.is_combination_feasible = feasible
+    TypeErasure.visit_func_decl = visit
+    try:
+        for lang, p, budget in programs:
+            del log[:]
+            te = TypeErasure(p, lang, None, {"timeout": 600, "max_combinations": budget})
+            te.transform()
+            cur = None
+            for ev in list(log):
+                if ev[0] == "begin":
+                    cur = dict(budget=ev[1], calls=[])
+                elif ev[0] == "end":
+                    if cur is not None and cur["calls"]:
+                        g0 = cur["calls"][0][0]
+                        singles = [c for c in cur["calls"] if c[0] == g0]
+                        nfeas = sum(1 for c in singles if c[2])
+                        phase2 = cur["calls"][len(singles):]
+                        results = [c[2] for c in phase2]
+                        total = 2 ** nfeas - 1 if nfeas < 20 else 10 ** 6
+                        applied1 = (len(results) if results and results[-1] else 0)
+                        pad = max(0, min(total, len(results) + 2) - len(results)) if not (results and results[-1]) else 0
+                        cases.append((cur["budget"], results + [False] * pad, len(results), applied1, lang, nfeas, total))
+                    cur = None
+                elif cur is not None:
+                    cur["calls"].append(ev)
+    finally:
+        tda.is_combination_feasible = orig_feasible
+        TypeErasure.visit_func_decl = orig_visit
+    return cases
+
+
+def drive_cut(rng, n):
+    """the real gen_new on a class with fields of its own type, of another class and of a primitive/builtin type;
+    generate_expr is wrapped to record the gen_bottom flag it is handed"""
+    from src.generators.generator import Generator
+    from src.generators.config import cfg
+    from src.ir import ast
+    cases = []
+    saved = cfg.limits.max_depth
+    try:
+        for lang in T.LANGS:
+            for _ in range(n // 4):
+                g = Generator(language=lang)
+                f = g.bt_factory
+                ns = ast.GLOBAL_NAMESPACE
+                g.namespace = ns
+                from src.ir.context import Context
+                g.context = Context()
+                bar = ast.ClassDeclaration("Bar", [], ast.ClassDeclaration.REGULAR)
+                foo = ast.ClassDeclaration("Foo", [], ast.ClassDeclaration.REGULAR)
+                ftypes = [("same", foo.get_type()), ("other", bar.get_type()), ("int", f.get_integer_type()),
+                          ("string", f.get_string_type())]
+                rng.shuffle(ftypes)
+                ftypes = ftypes[:rng.randint(1, 4)]
+                foo.fields = [ast.FieldDeclaration("f%d" % i, t) for i, (_, t) in enumerate(ftypes)]
+                bar.fields = [ast.FieldDeclaration("g", foo.get_type())]
+                g.context.add_class(ns, bar.name, bar)
+                g.context.add_class(ns, foo.name, foo)
+                md = rng.choice([1, 2, 3, 6])
+                d = rng.randint(0, 2 * md + 3)
+                ol = rng.random() < 0.5
+                cfg.limits.max_depth = md
+                g.depth = d
+                seen = []
+
+                def fake(expr_type, only_leaves=False, subtype=True, exclude_var=False, gen_bottom=False, sam_coercion=False,
+                         seen=seen, g=g):
+                    seen.append((expr_type, g.depth, bool(gen_bottom), bool(only_leaves)))
+                    return ast.BottomConstant(expr_type)
+                g.generate_expr = fake
+                try:
+                    g.gen_new(foo.get_type(), only_leaves=ol, subtype=False)
+                except Exception as e:      # noqa: BLE001
+                    cases.append(("error", lang, "%s: %s" % (type(e).__name__, e)))
+                    continue
+                for (et, depth, gb, ol2) in seen:
+                    cases.append((et.name == "Foo", depth, md, bool(et.is_primitive()), ol, gb, lang))
+    finally:
+        cfg.limits.max_depth = saved
+    return cases
+
+
 def counted_depth(n):
     return (1 if n[0] in COUNTED else 0) + max([counted_depth(k) for k in n[5]] + [0])
 
@@ -119,7 +326,7 @@ def run(tier, seed, replay=None):
     from src import utils
     TR = {"kotlin": KotlinTranslator, "java": JavaTranslator, "groovy": GroovyTranslator, "scala": ScalaTranslator}
     rows = progs.config_table()
-    proof_ok = C.proof_part(rep, "IR/Properties_C18.v", ["IR/Depth.vo", "IR/DepthProofs.vo", "IR/Corr18.vo"], ["IR"])
+    proof_ok = C.proof_part(rep, "IR/Properties_C18.v", ["IR/Depth.vo", "IR/DepthProofs.vo", "IR/Corr18.vo", "IR/Work.vo", "IR/WorkProofs.vo"], ["IR"])
     rng = random.Random(C.sub_seed(seed, "c18"))
     # (a) direct driving
     cases = drive_get_generators(rng, 1200 if tier == "quick" else 20000)
@@ -142,6 +349,60 @@ def run(tier, seed, replay=None):
     else:
         mism = C.parse_nat_list(C.parse_eval_outputs(out)[-1])
     C.clean_cases("c18")
+    # (a2) the other work counters: schedule loop, erasure search budget, gen_new cut
+    nS, nG = (300, 240) if tier == "quick" else (5000, 4000)
+    scases, hangs = drive_schedule(rng, nS)
+    bprogs = []
+    for lang in T.LANGS:
+        for _ in range(6 if tier == "quick" else 60):
+            bprogs.append((lang, erasure_program(lang, rng.randint(1, 6), rng), rng.choice([1, 2, 3, 5, 20, 100])))
+        for s_ in range(2 if tier == "quick" else 20):
+            try:
+                progs.set_cfg(rows[0])
+                bprogs.append((lang, progs.generate(lang, C.sub_seed(seed, "c18b", lang, s_) % (2 ** 31)), rng.choice([2, 10, 50])))
+            except Exception:       # noqa: BLE001  (generation failures are part (b)'s subject)
+                pass
+    bcases = drive_budget(rng, bprogs)
+    gcases_all = drive_cut(rng, nG)
+    gerrors = [c for c in gcases_all if c[0] == "error"]
+    gcases = [c for c in gcases_all if c[0] != "error"]
+    text2 = (C.CASE_HEADER + "From Coq Require Import List Arith Bool.\nImport ListNotations.\nFrom Heph Require Import IR.Work.\n"
+             "Definition sc : list scase := %s.\nDefinition bc : list bcase := %s.\nDefinition gc : list gcase3 := %s.\n"
+             "Eval vm_compute in (mism scase_ok 0 sc).\nEval vm_compute in (mism bcase_ok 0 bc).\nEval vm_compute in (mism gcase3_ok 0 gc).\n"
+             % (C.clist(scases, lambda c: "(%d, %d, %s, %d, %d, %s)" % (c[0], c[1], C.clist(c[2], C.cbool), c[3], c[4], C.clist(c[5])) if True else ""),
+                C.clist(bcases, lambda c: "(%d, %s, %d, %d)" % (c[0], C.clist(c[1], C.cbool), c[2], c[3])),
+                C.clist(gcases, lambda c: "(%s, %d, %d, %s, %s, %s)" % (C.cbool(c[0]), c[1], c[2], C.cbool(c[3]), C.cbool(c[4]), C.cbool(c[5])))))
+    rc2, out2 = C.run_case_files([("c18_1", text2)], timeout=900)["c18_1"]
+    smis = bmis = gmis = []
+    if rc2 != 0:
+        rep.violation("case-file", "case file did not evaluate: %s" % out2[-500:], dict(broken="c18_1", log=out2[-3000:]), no_input=True)
+    else:
+        vals = C.parse_eval_outputs(out2)
+        smis, bmis, gmis = (C.parse_nat_list(v) for v in vals[-3:])
+    C.clean_cases("c18")
+    for h in hangs[:3]:
+        rep.violation("schedule-nontermination", "process_cp_transformations did not finish within 4n+10 transformation calls: start=%d, "
+                      "schedule length=%d, is_transformed script=%s" % h, dict(start=h[0], schedule_len=h[1], script=h[2], shape="schedule-hang"))
+    for i in smis[:3]:
+        c = scases[i]
+        rep.violation("schedule", "transformation schedule: start=%d length=%d script=%s -> %d calls, counter %d, produced %s; the model "
+                      "(one call per remaining entry) disagrees" % c, dict(case=list(c), shape="schedule",
+                                                                         broken="correspondence IR.Work.cp_loop vs processor.py/hephaestus.py"))
+    for i in bmis[:3]:
+        c = bcases[i]
+        rep.violation("erasure-budget", "TypeErasure.visit_func_decl (%s, %d feasible single nodes, %d combinations) with max_combinations=%d "
+                      "made %d feasibility checks in the search and applied #%d; the model (at most budget+1 checks, first feasible) "
+                      "disagrees" % (c[4], c[5], c[6], c[0], c[2], c[3]),
+                      dict(case=[c[0], c[1], c[2], c[3]], lang=c[4], shape="erasure-budget",
+                           broken="correspondence IR.Work.search vs type_erasure.py"))
+    for i in gmis[:3]:
+        c = gcases[i]
+        rep.violation("new-cut", "gen_new (%s): field of %s type at depth %d with max_depth %d, only_leaves=%s was generated with "
+                      "gen_bottom=%s; the model says %s" % (c[6], "its own" if c[0] else ("a primitive" if c[3] else "another class"),
+                                                            c[1], c[2], c[4], c[5], not c[5]),
+                      dict(case=list(c), shape="new-cut", broken="correspondence IR.Work.gen_bottom_rule vs generator.py gen_new"))
+    for c in gerrors[:3]:
+        rep.violation("new-cut-error", "driving gen_new raised: %s" % (c,), dict(case=list(c), broken="driver of gen_new"), no_input=True)
     # (b) traces
     langs = {l: T.Lang(l) for l in T.LANGS}
     nper = 5 if tier == "quick" else 200
@@ -204,7 +465,11 @@ def run(tier, seed, replay=None):
                                                                                             f["error"], f["where"]), f)
     if not proof_ok and not rep.violations:
         rep.violation("proof", rep.proof_broken, dict(broken=rep.proof_broken), no_input=True)
-    rep.add(evaluations=len(cases) + nprog, get_generators_cases=len(cases), distinct_nontrivial=len({tuple(c[:9]) for c in cases}),
+    rep.add(schedule_cases=len(scases), schedule_hangs=len(hangs), erasure_search_cases=len(bcases),
+            erasure_search_budget_hit=sum(1 for c in bcases if c[3] == 0 and c[2] == c[0] + 1),
+            new_cut_cases=len(gcases), new_cut_beyond_limit=sum(1 for c in gcases if c[1] > 2 * c[2]),
+            work_model_mismatches=len(smis) + len(bmis) + len(gmis))
+    rep.add(evaluations=len(cases) + nprog + len(scases) + len(bcases) + len(gcases), get_generators_cases=len(cases), distinct_nontrivial=len({tuple(c[:9]) for c in cases}),
             traces_validated_against_impl=len(cases), model_impl_mismatches=len(mism), programs=nprog, stage_failures=stage_fail,
             worst_nesting={"%s/%d" % k: v for k, v in worst.items()}, pipeline_s=round(t_tr, 1),
             rule="(a) random (type kind, depth, max_depth, only_leaves, exclude_var, variable budget) tuples driven through the real "
